@@ -54,6 +54,9 @@ type Node struct {
 	ByGam  bool `json:"bygamma,omitempty"`
 	// Lazy nodes are not constructed at start; an event (chmap) creates them.
 	Lazy bool `json:"lazy,omitempty"`
+	// Ctor: the sketch is built with the library's convenience constructor / provider for
+	// this shape (NewDefaultDDSketch, LogCollapsingLowestDenseDDSketch, store.SparseStoreConstructor, ...).
+	Ctor bool `json:"ctor,omitempty"`
 }
 
 // Event is one fully resolved step of a plan. Field meaning depends on Ev and
